@@ -39,7 +39,9 @@ Exprs == {EA, Mem(Id("o"), "p"), Idx(Id("l"), Lit("0")), Idx(Id("o"), Lit("'p'")
           Cond(Mem(Id("o"), "p"), EA, EB), Un("!", Mem(Id("o"), "p")), Bin("+", Mem(Id("o"), "p"), Idx(Id("l"), Lit("0"))),
           Call(Id("f"), <<Mem(Id("o"), "p")>>), Obj(<<Named("k", Mem(Id("o"), "p"))>>),
           Idx(Mem(Obj(<<Named("x", Arr(<<Item(EB)>>))>>), "x"), Lit("0")), Arr(<<Hole, Item(EA)>>),
-          Bin("??", Mem(Id("o"), "p"), EA), Bin("===", EB, Lit("'t1'"))}
+          Bin("??", Mem(Id("o"), "p"), EA), Bin("===", EB, Lit("'t1'")),
+          (* a conditional whose branches are computed (not plain paths): each branch has dependencies of its own *)
+          Cond(EA, EB, Bin("+", Mem(Id("o"), "p"), Lit("1"))), Cond(EA, Bin("+", EB, Lit("1")), Idx(Id("l"), Lit("0")))}
 ExprsFew == {EA, Mem(Id("o"), "p"), Cond(EA, EB, Lit("'x'")), Bin("+", EA, Lit("1"))}
 
 S(s) == [t |-> "s", s |-> s]
@@ -98,7 +100,9 @@ F3 == {File1(<<Text(ps)>>) : ps \in {x \in TextSeqs : GoodText(x)}}
 (* F4: if-chains *)
 Conds == {EV(EA), EV(EB), EV(Un("!", EA)), EV(Mem(Id("o"), "p")), SV("yes"), SV(""), EV(Bin("===", EA, Lit("1"))),
           (* conditions whose emitted code is itself of the lowest precedence levels *)
-          EV(Bin("??", EA, EB)), EV(Bin("||", EA, EB)), EV(Bin("&&", EB, EA)), EV(Cond(EA, EB, Lit("0")))}
+          EV(Bin("??", EA, EB)), EV(Bin("||", EA, EB)), EV(Bin("&&", EB, EA)), EV(Cond(EA, EB, Lit("0"))),
+          (* a second condition with a temporary of its own (the chain's conditions are emitted into one statement) *)
+          EV(Cond(EB, Lit("0"), Lit("1"))), EV(Idx(Id("o"), Lit("'p'")))}
 Br(c, k) == [c |-> c, ch |-> <<Elem(k, <<>>, <<Text(<<P(EA)>>)>>)>>]
 ElseCh == <<Elem("e", <<>>, <<>>)>>
 F4 == {File1(<<If(<<Br(c, "x")>>, FALSE, <<>>)>>) : c \in Conds}
@@ -219,6 +223,13 @@ F6 == {FileW(<<>>, <<>>, r) : r \in ScopeShapes(ProbeAll)}
       \cup UNION { {FileW(<<>>, <<>>, <<For(EV(Id("l")), "x", "index", "",
                        <<Elem("v", <<Attr("plain", "p", EV(e)), Attr("class", "", MV(<<S("c"), P(e)>>))>>, <<>>)>>)>>) :
                        e \in Positions(n)} : n \in {"x", "y"} }
+      (* scope variables as the index expressions of the conditions of ONE if-chain (their temporaries live side by side) *)
+      \cup { FileW(<<>>, <<>>, <<For(EV(Id("l")), "x", "index", "",
+                       <<If(<<[c |-> EV(Idx(Id("l"), Id("index"))), ch |-> <<Elem("p", <<>>, ProbeAll)>>],
+                              [c |-> EV(Idx(Id("o"), Id("x"))), ch |-> <<Elem("q", <<>>, ProbeAll)>>]>>, TRUE, <<Elem("r", <<>>, ProbeAll)>>)>>)>>),
+              FileW(<<>>, <<>>, <<For(EV(Id("l")), "x", "index", "",
+                       <<If(<<[c |-> EV(Idx(Id("o"), Id("x"))), ch |-> <<Elem("p", <<>>, ProbeAll)>>],
+                              [c |-> EV(Cond(Id("index"), Lit("0"), Lit("1"))), ch |-> <<Elem("q", <<>>, ProbeAll)>>]>>, TRUE, <<Elem("r", <<>>, ProbeAll)>>)>>)>>) }
       (* the scope variable (and, next to it, a data field) as the value of every attribute family *)
       \cup { FileW(w, <<>>, <<For(EV(Id("l")), "x", "index", "",
                        <<Elem("v", <<Attr(fn[1], fn[2], EV(e)), Attr("plain", "q", EV(Id("y")))>>, <<>>)>>)>>) :
